@@ -18,3 +18,34 @@ Proof. vm_compute. reflexivity. Qed.
 
 Lemma Src_keys_eq : keys Src_db = Src_keys.
 Proof. vm_compute. reflexivity. Qed.
+
+Lemma Src_tree_opt_eq : Src_tree_opt = Some Src_tree.
+Proof. vm_compute. reflexivity. Qed.
+
+(* what the case files evaluate is the model applied to the current tables *)
+Lemma src_true_is_model m : src_true m = true_sequences _ hit_tbl Src_db m.
+Proof. unfold src_true, true_sequences. rewrite Src_tree_built, Src_tree_opt_eq. reflexivity. Qed.
+
+Lemma src_vendor_is_model vs m : src_vendor vs m = vendor_of _ hit_tbl Src_db vs m.
+Proof. unfold src_vendor, vendor_of. rewrite Src_tree_built, Src_tree_opt_eq, Src_all_eq. reflexivity. Qed.
+
+Theorem src_true_iff_chain M (hit : rid -> M -> bool) m s :
+  In s (keys Src_db) -> (In s (tree_true M hit m Src_tree) <-> chain_hits M hit Src_db m s = true).
+Proof. apply (true_iff_chain Src_db Src_tree Src_tree_built Src_db_ok). Qed.
+
+Theorem src_prefix_closed M (hit : rid -> M -> bool) m s p :
+  In s (keys Src_db) -> In s (tree_true M hit m Src_tree) -> In p (seq_subs s) ->
+  In p (tree_true M hit m Src_tree).
+Proof. apply (prefix_closed Src_db Src_tree Src_tree_built Src_db_ok). Qed.
+
+Theorem src_static_holds M (hit : rid -> M -> bool) m :
+  let tr := tree_true M hit m Src_tree in
+  match_err tr Src_all Src_vendors = false ->
+  no_tie (matched tr Src_all Src_vendors) = true ->
+  matched tr Src_all Src_vendors <> [] ->
+  P_C18_static Src_keys Src_all Src_vendors tr (registry_match tr Src_all Src_vendors) = true.
+Proof.
+  intros tr HE HT HN. unfold P_C18_static. rewrite <- Src_keys_eq.
+  unfold tr. rewrite (hier_ok_model Src_db Src_tree Src_tree_built Src_db_ok). cbn.
+  apply vendor_ok_model; assumption.
+Qed.
